@@ -276,6 +276,11 @@ func cmdC12(seed int64, tier, outDir string) {
 		for _, c := range c04Streams(seed, tier, optBoost) {
 			cc := c
 			n := len(c04Text(c.Segs))
+			if c.Src == "fold-cost" {
+				// seconds of constant folding per Generate: a matter of time (C04), not of goroutines
+				sum.Skipped["fold-cost stream: left to C04"]++
+				continue
+			}
 			if c.Deep > 0 && n > 8000 {
 				sum.Skipped["deep input: left to C04"]++
 				continue
